@@ -62,6 +62,7 @@ func TestVerifC18Ints(t *testing.T) {
 			check := func(enc string, back *Int, err error, bytes1, bytes2 []byte) {
 				r.Eval()
 				r.Nontrivial(enc + "|" + x.String())
+				r.Outcome(fmt.Sprintf("%s:negative=%v:decoded=%v", enc, neg, err == nil))
 				rep := map[string]any{"value": x.String(), "encoding": enc}
 				if !neg {
 					if err != nil {
